@@ -333,11 +333,12 @@ namespace occa {
   }
 
   double parseFloat(const std::string &str) {
-    return ::atof(str.c_str());
+    return occa::parseFloat(str.c_str());
   }
 
   double parseFloat(const char *c) {
-    return ::atof(c);
+    // Round the text to float once: going through double rounds twice
+    return ::strtof(c, NULL);
   }
 
   double parseDouble(const std::string &str) {
